@@ -1,5 +1,7 @@
 package main
 
+import "golang.org/x/tools/go/ssa"
+
 func init() {
 	register(&propDef{
 		ID: "C04",
@@ -37,6 +39,48 @@ func init() {
 			ruleHintCallers(c, "C07.HINT.CALLERS")
 			c.R.Floor("C07.HINT.FIRST", 4)
 			c.R.Floor("C07.HINT.CALLERS", 2)
+		},
+	})
+}
+
+func init() {
+	register(&propDef{
+		ID: "C16",
+		Explain: "Lock-discipline rules over all code reachable from the datagram handlers and from every `go` statement: every access to state in the frozen GUARDED-BY table (range Recordsv4 and its records, prefix Records and its leases, the allocator bitmaps, file.StaticRecords) happens with the guarding mutex held in the required mode in every abstract state — helpers are analysed with the locks held at all their call sites, globals shared between plugin instances are checked in setup code too (GUARDED-BY, ALLOC.LOCK); no write to guarded state depends, on its abstract path, on a fact about guarded state established in another critical section — lookup/allocate/insert is one section (ATOMIC-RMW); every other package-level variable read by handlers has no store reachable from a handler or goroutine (GLOBAL-RO); the receive buffer is returned to the pool exactly once, after parsing, never read afterwards, and each handler goroutine gets a buffer taken from the pool in its own iteration (BUF.RELEASE); all locks are released on all paths and the lock graph is acyclic (LOCKPAIR, LOCKORDER). Lock discipline implies data-race freedom of the guarded state and serialisability of each lease decision.",
+		Trusted: trustedBase,
+		Assume:  []string{"the codec copies out of the receive buffer (read and confirmed; heap aliasing of the codec is not analysed)", "races inside dependencies (logrus, sqlite)", "aliasing of shared option objects across replies (read-only today)", "multi-IA_PD messages take one critical section per IA_PD by design"},
+		Run: func(c *Ctx) {
+			ruleGuardedBy(c, "C16.")
+			ruleGlobalRO(c, "C16.GLOBAL-RO")
+			ruleBufRelease(c, "C16.BUF.RELEASE")
+			for _, ai := range findAllocImpls(c) {
+				ruleAllocLock(c, "C16.", ai)
+			}
+			// lock pairing for every first-party function that locks
+			var lockers []*ssa.Function
+			for _, fn := range c.P.SrcFuncs() {
+				if isFixture(fn) {
+					continue
+				}
+				for _, b := range fn.Blocks {
+					for _, in := range b.Instrs {
+						if call, ok := in.(*ssa.Call); ok {
+							if op, _ := mutexOp(&call.Call); op == "lock" {
+								lockers = appendUniqueFn(lockers, fn)
+							}
+						}
+					}
+				}
+			}
+			runSafety(c, "C16.", lockers, nil, "LOCKPAIR")
+			ruleLockOrder(c, "C16.")
+			c.R.Floor("C16.GUARDED-BY", 25)
+			c.R.Floor("C16.ATOMIC-RMW", 3)
+			c.R.Floor("C16.GLOBAL-RO", 20)
+			c.R.Floor("C16.BUF.RELEASE", 4)
+			c.R.Floor("C16.LOCKPAIR", 10)
+			c.R.Floor("C16.LOCKORDER", 5)
+			c.R.Floor("C16.ALLOC.LOCK", 14)
 		},
 	})
 }
